@@ -13,7 +13,7 @@ chk.assumptions = [
 ]
 inj = {"internal/crosscompile/zz_verif_c20_test.go": os.path.join(core.V, "inpkg", "c20_extract_test.go")}
 extra = {}
-for k in ("VERIF_C20_ONLY", "VERIF_C20_WORKERS", "VERIF_C20_STAGES"):
+for k in ("VERIF_C20_ONLY", "VERIF_C20_WORKERS", "VERIF_C20_STAGES", "VERIF_C20_NOAVOID", "VERIF_C20_TIMING"):
     if os.environ.get(k):
         extra[k] = os.environ[k]
 thorough = chk.tier == "thorough"
